@@ -210,6 +210,10 @@ pub fn gen_c16(rng: &mut Rng, _i: u64, tier: Tier) -> Script {
                 s.prop = "C16".into();
             }
             s.set("adler_probe", 1);
+            if rng.chance(1, 3) {
+                // calls that stop at a block boundary produce output too
+                s.set("stop_bb", 1);
+            }
             s
         }
     }
